@@ -318,6 +318,12 @@ func (t *Tpl) writeNode(w io.Writer, node *node, ctx *Ctx) (err error) {
 			if b, ok := ConvBytes(raw); ok && len(b) > 0 {
 				// Set byte array as bytes variable if possible.
 				ctx.SetBytes(byteconv.B2S(node.ctxVar), b)
+			} else if p, ok := raw.(*int); ok {
+				// Counters and loop variables hand out their own storage: keep a copy of the
+				// number, the new variable must not follow later changes of the source.
+				ctx.SetCounter(byteconv.B2S(node.ctxVar), *p)
+			} else if p, ok := raw.(*int64); ok {
+				ctx.SetCounter(byteconv.B2S(node.ctxVar), int(*p))
 			} else {
 				ctx.Set(byteconv.B2S(node.ctxVar), raw, ins)
 			}
